@@ -249,6 +249,7 @@ pub fn s1(property: &str, scenario: &str, seed: u64, o: &S1Opts) -> Plan {
             clock_bump_us: if c.chance(&[49], 100_000) { *c.pick(&[50], &[1u64, 5, 20]) } else { 0 },
             variable_size_input: false,
             own_snapshots: c.chance(&[51], 200_000),
+            shuffle_submissions: c.chance(&[53], 300_000),
         },
         nodes,
         links,
@@ -362,6 +363,7 @@ pub fn synctest(property: &str, seed: u64, faulty: bool, invalid: bool) -> Plan 
             clock_bump_us: 0,
             variable_size_input: false,
             own_snapshots: c.chance(&[13], 300_000),
+            shuffle_submissions: false,
         },
         nodes: Vec::new(),
         links: Vec::new(),
@@ -558,6 +560,7 @@ fn c05_base_plan(property: &str, seed: u64, b: (u8, usize, usize, bool)) -> Plan
             clock_bump_us: 0,
             variable_size_input: false,
             own_snapshots: false,
+            shuffle_submissions: false,
         },
         nodes,
         links,
@@ -883,6 +886,7 @@ fn two_peer_base(property: &str, scenario: &str, seed: u64, c: &Ch, allow_specta
             clock_bump_us: 0,
             variable_size_input: false,
             own_snapshots: c.chance(&[119], 200_000),
+            shuffle_submissions: c.chance(&[120], 300_000),
         },
         nodes,
         links,
@@ -1727,6 +1731,7 @@ pub fn c15(property: &str, seed: u64, index: u64) -> Plan {
             clock_bump_us: 0,
             variable_size_input: false,
             own_snapshots: false,
+            shuffle_submissions: false,
         },
         nodes,
         links,
